@@ -379,7 +379,7 @@ func ruleFromChannel() check.Rule {
 	return check.Rule{
 		Name:        "FROM-CHANNEL",
 		FamilyShape: true,
-		Doc:         "FromChannel receives with the two-value form, completes and returns when the channel is closed, forwards every received value, and selects on a channel that its teardown closes",
+		Doc:         "FromChannel receives with the two-value form, completes and returns when the channel is closed, forwards every received value, selects on a channel that its teardown closes, every receive from the caller's channel is the two-value communication of a select, and the loop polls the teardown's channel (select with default) before each blocking receive",
 		Run: func(c *check.Ctx) {
 			m := c.M
 			sc := m.SCByName("ro.FromChannel")
@@ -500,6 +500,86 @@ func ruleFromChannel() check.Rule {
 				return true
 			})
 			c.Inc("from_channel_receives", nrecv)
+			// "stops reading when unsubscribed": a select picks at random among its ready cases, so once the consumer has
+			// unsubscribed from inside its callback (deterministic: same goroutine) the next iteration would still take a
+			// buffered value half of the time. The loop therefore polls the channel its teardown closes — a select with
+			// that receive and a default clause — before every blocking receive from the caller's channel
+			closedByTeardown := map[types.Object]bool{}
+			for _, op := range sc.SubOps {
+				if op.Method != "close" || op.Call == nil || len(op.Call.Args) != 1 {
+					continue
+				}
+				inTd := false
+				for cx := op.Ctx; cx != nil; cx = cx.Parent {
+					if cx.Kind == model.KTeardown {
+						inTd = true
+					}
+				}
+				if id, _ := rootIdent(op.Call.Args[0]); id != nil && inTd {
+					closedByTeardown[objOf(info, id)] = true
+				}
+			}
+			pollsDone := func(sel *ast.SelectStmt) bool {
+				hasDefault, hasDone := false, false
+				for _, cl := range sel.Body.List {
+					cc := cl.(*ast.CommClause)
+					if cc.Comm == nil {
+						hasDefault = true
+						continue
+					}
+					ast.Inspect(cc.Comm, func(y ast.Node) bool {
+						if u, ok := y.(*ast.UnaryExpr); ok && u.Op == token.ARROW {
+							if id, _ := rootIdent(u.X); id != nil && closedByTeardown[objOf(info, id)] {
+								hasDone = true
+							}
+						}
+						return true
+					})
+				}
+				return hasDefault && hasDone
+			}
+			ast.Inspect(sc.Lit.Body, func(n ast.Node) bool {
+				loop, ok := n.(*ast.ForStmt)
+				if !ok {
+					return true
+				}
+				// the blocking select of this loop that receives from the caller's channel
+				var recvSel *ast.SelectStmt
+				polled := false
+				for _, st := range loop.Body.List {
+					sel, ok := st.(*ast.SelectStmt)
+					if !ok {
+						continue
+					}
+					if pollsDone(sel) {
+						polled = true
+						continue
+					}
+					recvIn := false
+					ast.Inspect(sel, func(y ast.Node) bool {
+						if u, ok := y.(*ast.UnaryExpr); ok && u.Op == token.ARROW {
+							if id, _ := rootIdent(u.X); id != nil && inParam != nil && objOf(info, id) == types.Object(inParam) {
+								recvIn = true
+							}
+						}
+						return true
+					})
+					if recvIn && recvSel == nil {
+						recvSel = sel
+						break
+					}
+				}
+				if recvSel == nil {
+					return true
+				}
+				c.Inc("from_channel_loops", 1)
+				if polled {
+					c.OK(key+"/polls-unsubscription", recvSel.Pos(), "the loop polls the channel its teardown closes before the blocking receive")
+				} else {
+					c.Violation(key+"/polls-unsubscription", recvSel.Pos(), "the loop goes back to a select between the caller's channel and the channel its teardown closes without polling the latter first: select picks at random among ready cases, so after the consumer unsubscribed from inside its callback the reader still takes (and drops) a buffered value half of the time — it keeps reading after Unsubscribe returned")
+				}
+				return true
+			})
 		},
 	}
 }
